@@ -15,7 +15,8 @@ impl KeyMap {
     #[verifier::external_body] pub fn get(&self, k: &LocalKey) -> (r: Option<&LocalId>) ensures r matches Some(v) ==> self@.contains_key(*k) && *v == self@[*k], r is None ==> !self@.contains_key(*k) { unimplemented!() }
 }
 // hir::HirTable: the fields the two allocators use
-pub struct HirTable { pub package: PackageId, pub current_owner: Option<DefId>, pub local_counter: u32, pub local_interner: KeyMap, pub local_info: Vec<LocalInfo> }
+pub struct HirTable { pub package: PackageId, pub current_owner: Option<DefId>, pub local_counter: u32, pub local_interner: KeyMap, pub local_info: Vec<LocalInfo>,
+                      pub def_interner: DefKeyMap, pub def_data: Vec<Def>, pub def_paths: Vec<Path> }
 // representation invariant: every index handed out so far lies inside the table
 pub open spec fn wf(t: HirTable) -> bool { forall|k: LocalKey| t.local_interner@.contains_key(k) ==> (#[trigger] t.local_interner@[k]).idx < t.local_info@.len() }
 // a NEW local: the next free index, one entry more (with the hint), everything before untouched
@@ -28,4 +29,21 @@ pub open spec fn owner_outside(p: PackageId) -> DefId { DefId { pkg: p, idx: u32
 // the key a source binder is remembered under: the definition being lowered (or the fallback owner) and the binder's position
 pub open spec fn binder_key(t: HirTable, ptr: MySyntaxNodePtr) -> LocalKey {
     LocalKey::AstBinder { owner: (match t.current_owner { Some(o) => o, None => owner_outside(t.package) }), ptr }
+}
+// ---- definitions (alloc_def / alloc_def_with_path / def / def_path) ----
+#[verifier::external_body] pub struct Def { _p: u64 }
+#[verifier::external_body] pub struct Path { _p: u64 }
+#[verifier::external_body] #[derive(Clone, Copy)] pub struct DefKind { _p: u8 }
+impl VClone for Path { #[verifier::external_body] fn vclone(&self) -> (r: Self) { unimplemented!() } }
+impl Path { pub uninterp spec fn of_ident(name: Seq<char>) -> Path; #[verifier::external_body] pub fn from_ident(name: String) -> (r: Path) ensures r == Path::of_ident(name@) { unimplemented!() } }
+pub struct DefKey { pub path: Path, pub kind: DefKind, pub disamb: u32 }
+#[verifier::external_body] pub struct DefKeyMap { _p: u64 }
+impl DefKeyMap { #[verifier::external_body] pub fn insert(&mut self, k: DefKey, v: DefId) -> (r: Option<DefId>) { unimplemented!() } }
+#[verifier::external_body] pub fn same_package(a: PackageId, b: PackageId) requires a == b { unimplemented!() }          // assert_eq!(id.pkg, self.package)
+// definitions and their paths are stored side by side
+pub open spec fn defs_wf(t: HirTable) -> bool { t.def_data@.len() == t.def_paths@.len() }
+pub open spec fn def_appended(old_t: HirTable, new_t: HirTable, r: DefId, def: Def, path: Path) -> bool {
+    r.idx as int == old_t.def_data@.len() && r.pkg == old_t.package && new_t.package == old_t.package
+    && new_t.def_data@ =~= old_t.def_data@.push(def) && new_t.def_paths@ =~= old_t.def_paths@.push(path)
+    && new_t.local_info@ == old_t.local_info@ && new_t.local_interner@ == old_t.local_interner@
 }
